@@ -8,7 +8,7 @@ CONTROLS = ("valid", "pad16ok")
 RULE = ("for every suite with integrity (all 9) and commands of the pool: (1) every forged reply of the catalogue {authenticated flag "
         "cleared; unsigned plaintext; empty / short / random AuthCode; signed with another key; addressed to another / the BMC's / "
         "the null session ID; correctly signed with a malformed confidentiality pad (wrong last pad byte, pad length > 16, pad not "
-        "starting at 01, and for every pad length 0..15 every single position of one wrong pad byte)} - each carrying a well-formed response to the right command with a value the BMC never produced - "
+        "starting at 01, and for every pad length 0..15 every single position of one wrong pad byte)} - each carrying a well-formed response to the right command with a value the BMC never produced, with completion code 00h and with permanent non-zero codes - "
         "delivered as the first reply, followed by the authentic one: predicate = the forged reply is treated as no response "
         "(one more transmission) and the value returned is the authentic one; a correctly protected control forgery must be "
         "accepted (non-vacuity); (2) every single-bit flip and every truncation of the authentic reply: predicate = the value "
@@ -52,7 +52,10 @@ def run(ch, build):
             pads += ["padlong:%d" % n for n in ((17, 24, 40, 104, 248) if not ch.quick() else (17, rng.choice([24, 40, 104]), 248))]
             # the 16-byte form of the pad (01 .. 10, 10 behind a message that fills its block): each of its bytes wrong in turn
             pads += ["pad16:%d" % k for k in (range(16) if not ch.quick() else [0, 15] + rng.sample(range(1, 15), 3))]
-            for f in CATALOGUE + pads + ["valid", "pad16ok"]:
+            # the same forgeries carrying a permanent non-zero completion code: a refusal the BMC never issued is a value too
+            coded = ["%s@%d" % (f, cc) for f in ("noauth", "plain", "emptysig", "randsig", "wrongkey", "wrongsid", "zerosid", "v15none", "badpad")
+                     for cc in ((0xc1, 0xd4, 0xff, 0x80, 0xcc, 0x01) if not ch.quick() else (rng.choice([0xc1, 0xd4, 0xcc]), rng.choice([0xff, 0x80, 0x01])))]
+            for f in CATALOGUE + coded + pads + ["valid", "pad16ok"]:
                 if f == "bmcsid" and scn["bmc"].get("first_session_id") == 1:
                     continue        # both IDs are 1 there: a packet addressed to "the BMC's ID" is addressed correctly
                 scn["steps"].append({"op": "cmd", "conn": "session", "cmd": c, "script": ["forge:" + f, "ok"], "forgery": f})
